@@ -2,5 +2,6 @@ SPECIFICATION Spec
 CONSTANTS
   Layouts <- LayoutsQuick
   MaxLoops = 3
-  FixEndIdx = FALSE
+  FixEndIdx = TRUE
+  FixPadding = TRUE
 INVARIANTS Served StartOK CountOK FramesOK
